@@ -5,7 +5,8 @@ from checklib import gen
 from checklib.core import enc, run_pair, tok_to_float, cmp_tokens, fbits
 
 ID = 'C07'
-LEAN_DEPS = ['RvModel.Lemmas.C07']
+LEAN_DEPS = ['RvModel.Lemmas.C07', 'RvModel.Hand.StickConj', 'RvModel.Lemmas.C05S', 'RvModel.Hand.DispatchAll']
+EXTRA_PROPS = ['RvModel/Props/C05S.lean']     # ln_f_stat = sum of ln_f for the stick-breaking likelihood (4 theorems there)
 TRUSTED = ['closed forms of each statistic (Props/C07*.lean Abs<Stat>) as the abstraction to the data multiset']
 ASSUMPTIONS = ['histories never forget an absent item; exact reals in theorems, binary64 drift only sampled against exact rational closed forms']
 N_GEN = {'quick': 8, 'thorough': 120}
@@ -73,6 +74,17 @@ def stat_close(stat, toks, want, xs):
 
 
 def extra_run(man, tier, seed):
+    out = extra_run_stats(man, tier, seed)
+    from props import _stick
+    st = _stick.stick_extra('C07', tier, seed)
+    out['obligations'] = out.get('obligations', []) + st['obligations']
+    out['failures'] += st['failures']
+    for k_, v_ in st['stats'].items():
+        out['stats'][k_] = out['stats'].get(k_, 0) + v_
+    return out
+
+
+def extra_run_stats(man, tier, seed):
     rng = random.Random(seed * 101 + 7)
     nh = 30 if tier == 'quick' else 800
     failures, obligations, samples = [], [], []
@@ -247,4 +259,4 @@ def _upl_underflow(f):
         return False
 
 
-INPUT_CLASSES = {'upl_product_underflow': _upl_underflow}
+INPUT_CLASSES = {'upl_product_underflow': _upl_underflow, 'sbd_zero_weight_empty_slot': (lambda f: f.get('cls') == 'sbd_zero_weight_empty_slot')}
